@@ -802,3 +802,315 @@ def tok_10(ctx, rep):
                'the scan of the line stops here, but the text after the scan position is neither consumed nor stored '
                '(only a slice of a shortened copy of the line, or nothing, is kept)', reason=why)
     rep.minimum('TOK-10', 4, 'breaks of the scan loop')
+
+
+# ---------------------------------------------------------------------------------------------------------------
+# TOK-11  the start position of f-string text is taken where its first piece is matched
+def _attr_of_tos(e):
+    """'attr' for an expression <name>.attr, else None."""
+    return e.attr if isinstance(e, ast.Attribute) and isinstance(e.value, ast.Name) else None
+
+
+def _nonempty_on(test, attrs):
+    """'T' / 'F': the outcome of ``test`` under which one of the attributes ``attrs`` holds non-empty text; None when
+    the test says nothing about them."""
+    def is_attr(e):
+        if isinstance(e, ast.Call) and isinstance(e.func, ast.Name) and e.func.id == 'len' and len(e.args) == 1:
+            e = e.args[0]
+        return _attr_of_tos(e) in attrs
+    if is_attr(test):
+        return 'T'
+    if isinstance(test, ast.Compare) and len(test.ops) == 1 and is_attr(test.left) and isinstance(test.comparators[0], ast.Constant) \
+            and test.comparators[0].value in ('', 0):
+        op = test.ops[0]
+        if isinstance(op, ast.Eq):
+            return 'F'
+        if isinstance(op, (ast.NotEq, ast.Gt)):
+            return 'T'
+    return None
+
+
+def tok_11(ctx, rep):
+    rep.rule('TOK-11', 'the start position yielded with an FSTRING_STRING token is recorded in the very scan step that matches '
+                       'the first piece of its text: in the text finder every way to a return of possibly non-empty text '
+                       'either stores (line number, match position) in the attribute the token is later built from, or has '
+                       'seen carried-over text (whose start was recorded by the step that carried it over), or returns the '
+                       'carried-over text itself')
+    f = ctx.prog.func(TOK, 'tokenize_lines')
+    # the FSTRING_STRING tokens and the attribute their start comes from
+    pos_attrs, sites = set(), []
+    for n in walk_own(f.node):
+        if _yield_token_type(n) == 'FSTRING_STRING':
+            c = n.value.value
+            start = c.args[2] if len(c.args) > 2 else next((k.value for k in c.keywords if k.arg == 'start_pos'), None)
+            sites.append((n, c, start))
+            a = _attr_of_tos(start) if start is not None else None
+            rep.ob('TOK-11', TOK, f.qual, 'start position of `yield PythonToken(FSTRING_STRING, %s, ...)`' % norm(c.args[1]),
+                   a is not None, 'the start position is not read from the f-string stack entry: %s' % (norm(start) if start is not None else '-'))
+            if a:
+                pos_attrs.add(a)
+    if not sites:
+        raise AnalysisError('TOK-11: no FSTRING_STRING token is yielded by tokenize_lines')
+    if len(pos_attrs) != 1:
+        if pos_attrs:
+            rep.ob('TOK-11', TOK, f.qual, 'one start-position attribute for f-string text', False,
+                   'different attributes are used: %s' % sorted(pos_attrs))
+        return
+    (A,) = pos_attrs
+    # the text finder: the function whose result tuple's first element is the yielded string
+    finder = call = None
+    for n, c, start in sites:
+        s = c.args[1]
+        if isinstance(s, ast.Name):
+            for a in walk_own(f.node):
+                if isinstance(a, ast.Assign) and isinstance(a.targets[0], ast.Tuple) and a.targets[0].elts \
+                        and isinstance(a.targets[0].elts[0], ast.Name) and a.targets[0].elts[0].id == s.id \
+                        and isinstance(a.value, ast.Call) and isinstance(a.value.func, ast.Name):
+                    t = ctx.prog.resolve_global(f.mod, a.value.func.id)
+                    if t is not None and hasattr(t, 'node'):
+                        finder, call = t, a
+    if finder is None:
+        raise AnalysisError('TOK-11: the function that finds f-string text (its result is yielded as FSTRING_STRING) was not found')
+    params = finder.params()
+    assigned = {t.id for n in walk_own(finder.node) for t in ast.walk(n) if isinstance(t, ast.Name) and isinstance(t.ctx, ast.Store)}
+    # the carried-over text attribute: what the finder returns when nothing matches / prepends to the match
+    carried = set()
+    for n in walk_own(finder.node):
+        if isinstance(n, ast.AugAssign) and _attr_of_tos(n.target):
+            carried.add(n.target.attr)
+    # the match position: second argument of the .match() call on the line
+    match_pos = None
+    for n in walk_own(finder.node):
+        if isinstance(n, ast.Call) and isinstance(n.func, ast.Attribute) and n.func.attr == 'match' and len(n.args) == 2 \
+                and isinstance(n.args[1], ast.Name) and n.args[1].id in params:
+            match_pos = n.args[1].id
+    if match_pos is None or not carried:
+        raise AnalysisError('TOK-11: shape of the f-string text finder not recognised (match position %s, carried text %s)' % (match_pos, sorted(carried)))
+
+    def good_store(st):
+        if not (isinstance(st, ast.Assign) and len(st.targets) == 1 and _attr_of_tos(st.targets[0]) == A):
+            return False
+        v = st.value
+        return isinstance(v, ast.Tuple) and len(v.elts) == 2 and isinstance(v.elts[0], ast.Name) and v.elts[0].id in params \
+            and v.elts[0].id not in assigned and isinstance(v.elts[1], ast.Name) and v.elts[1].id == match_pos and match_pos not in assigned
+
+    cfg = ctx.cfg(finder)
+    start = (cfg.entry, False)
+    seen = {start: None}
+    todo = [start]
+    bad = None
+    n_ret = 0
+    while todo and bad is None:
+        state = todo.pop(0)
+        node, ok = state
+        a = node.ast
+        if node.kind == 'stmt' and isinstance(a, ast.Return):
+            v = a.value
+            s = v.elts[0] if isinstance(v, ast.Tuple) and v.elts else v
+            empty = s is None or (isinstance(s, ast.Constant) and not s.value)
+            is_carried = s is not None and _attr_of_tos(s) in carried
+            if not ok and not empty and not is_carried:
+                bad = state
+            continue
+        if node.kind == 'stmt' and good_store(a):
+            ok = True
+        for s2, lab in node.succ:
+            if lab == 'exc':
+                continue
+            ok2 = ok
+            if node.kind == 'test' and _nonempty_on(a, carried) == lab:
+                ok2 = True
+            nxt = (s2, ok2)
+            if nxt not in seen:
+                seen[nxt] = state
+                todo.append(nxt)
+    n_ret = sum(1 for n in walk_own(finder.node) if isinstance(n, ast.Return))
+    path = []
+    if bad is not None:
+        k = bad
+        while k is not None:
+            path.append(k[0])
+            k = seen[k]
+        path.reverse()
+    from ..paths import path_text
+    rep.ob('TOK-11', TOK, finder.qual, 'every return of fresh text is preceded by the store of .%s = (line, match position)' % A,
+           bad is None,
+           'text whose first piece is matched in this call can be returned without its start having been recorded: the token is '
+           'built from whatever an earlier event left in .%s (text also resumes after an error token or a re-balancing brace). '
+           'Path: %s' % (A, ' -> '.join(path_text(path))) if bad is not None else '', witness=path_text(path) if bad else None)
+    # the arguments bound to the stored names at the call site are the line counter and the scan position
+    if call is not None:
+        args = {p: (call.value.args[i] if i < len(call.value.args) else None) for i, p in enumerate(params)}
+        pos_arg = args.get(match_pos)
+        tgt = call.targets[0].elts
+        same = isinstance(pos_arg, ast.Name) and len(tgt) > 1 and isinstance(tgt[1], ast.Name) and tgt[1].id == pos_arg.id
+        rep.ob('TOK-11', TOK, f.qual, 'the match position handed to %s is the scan position it also returns' % finder.name, same,
+               'the position argument %s is not the variable that receives the new scan position' % (norm(pos_arg) if pos_arg is not None else '-'))
+    rep.stat('tok11_returns', n_ret)
+    rep.minimum('TOK-11', 3)
+
+
+# ---------------------------------------------------------------------------------------------------------------
+# TOK-12  what a scan step emits and where the scan continues agree
+def tok_12(ctx, rep):
+    rep.rule('TOK-12', 'in the scan loop of tokenize_lines a step that emits a text shorter than the pseudo-token match (a '
+                       'constant, or the first character) also moves the scan position to the end of exactly that text before '
+                       'the next step: otherwise the rest of the match is in no token and no prefix')
+    f = ctx.prog.func(TOK, 'tokenize_lines')
+    cfg = ctx.cfg(f)
+    start_name = pos_name = token_name = None
+    anchor = None
+    for n in cfg.nodes:
+        a = n.ast
+        if n.kind != 'stmt' or not isinstance(a, ast.Assign):
+            continue
+        t, v = a.targets[0], a.value
+        if isinstance(t, ast.Tuple) and len(t.elts) == 2 and all(isinstance(x, ast.Name) for x in t.elts) \
+                and isinstance(v, ast.Call) and isinstance(v.func, ast.Attribute) and v.func.attr == 'span':
+            start_name, pos_name = t.elts[0].id, t.elts[1].id
+            span_of = norm(v.func.value)
+    if start_name is None:
+        raise AnalysisError('TOK-12: `start, pos = <match>.span(k)` not found in tokenize_lines')
+    for n in cfg.nodes:
+        a = n.ast
+        if n.kind == 'stmt' and isinstance(a, ast.Assign) and isinstance(a.targets[0], ast.Name) and isinstance(a.value, ast.Call) \
+                and isinstance(a.value.func, ast.Attribute) and a.value.func.attr == 'group' and norm(a.value.func.value) == span_of \
+                and len(a.value.args) == 1 and norm(a.value.args[0]) == '2':
+            token_name = a.targets[0].id
+            anchor = n
+    if anchor is None:
+        raise AnalysisError('TOK-12: `token = <match>.group(2)` not found in tokenize_lines')
+    # names bound to the first character of the token
+    first_char = set()
+    for a in walk_own(f.node):
+        if isinstance(a, ast.Assign) and isinstance(a.targets[0], ast.Name) and isinstance(a.value, ast.Subscript) \
+                and isinstance(a.value.value, ast.Name) and a.value.value.id == token_name \
+                and isinstance(a.value.slice, ast.Constant) and a.value.slice.value == 0:
+            first_char.add(a.targets[0].id)
+    # the loop the anchor sits in
+    loop = anchor.stmt
+    while loop is not None and not isinstance(loop, ast.While):
+        loop = getattr(loop, '_parent', None)
+    if loop is None:
+        raise AnalysisError('TOK-12: the scan loop was not found')
+    heads = [n for n in cfg.nodes if n.kind == 'test' and n.stmt is loop]
+    if not heads:
+        raise AnalysisError('TOK-12: the test of the scan loop is not in the CFG')
+
+    def ev(e, tok):
+        """small integer evaluator over len(token) and constants"""
+        if isinstance(e, ast.Constant) and isinstance(e.value, int):
+            return e.value
+        if isinstance(e, ast.Call) and isinstance(e.func, ast.Name) and e.func.id == 'len' and len(e.args) == 1:
+            a = e.args[0]
+            if isinstance(a, ast.Name) and a.id == token_name and isinstance(tok, tuple):
+                return len(tok[1])
+            if isinstance(a, ast.Constant) and isinstance(a.value, str):
+                return len(a.value)
+            if isinstance(a, ast.Name) and a.id in first_char:
+                return 1
+            return None
+        if isinstance(e, ast.BinOp) and isinstance(e.op, (ast.Add, ast.Sub)):
+            l, r = ev(e.left, tok), ev(e.right, tok)
+            if l is None or r is None:
+                return None
+            return l + r if isinstance(e.op, ast.Add) else l - r
+        return None
+
+    def guard_equal_const(node, const):
+        from ..facts import guards_of
+        for t, pol in guards_of(node):
+            if pol and isinstance(t, ast.Compare) and len(t.ops) == 1 and isinstance(t.ops[0], ast.Eq) \
+                    and norm(t.left) == token_name and isinstance(t.comparators[0], ast.Constant) and t.comparators[0].value == const:
+                return True
+        return False
+
+    def emitted(a, tok):
+        """length class of the text a statement emits from this match, or None"""
+        out = None
+        for c in ast.walk(a):
+            if isinstance(c, ast.Call) and isinstance(c.func, ast.Name) and c.func.id == 'PythonToken' and len(c.args) > 1:
+                s = c.args[1]
+                if isinstance(s, ast.Name) and s.id == token_name:
+                    out = 'M' if tok == 'M' else (('K', len(tok[1])) if isinstance(tok, tuple) else '?')
+                elif isinstance(s, ast.Name) and s.id in first_char:
+                    out = ('K', 1)
+                elif isinstance(s, ast.Constant) and isinstance(s.value, str) and s.value:
+                    out = ('K', len(s.value))
+        return out
+
+    init = (anchor, 'M', 'END', None)
+    seen = {init: None}
+    todo = [init]
+    problems = {}
+    while todo:
+        state = todo.pop()
+        node, tok, P, E = state
+        a = node.ast
+        if node is not anchor and node in heads:
+            if isinstance(E, tuple) and (P == 'END' or (isinstance(P, tuple) and P[1] != E[1])):
+                key = (E, P)
+                problems.setdefault(key, state)
+            continue
+        if node.kind == 'stmt' and a is not None and node is not anchor:
+            if isinstance(a, ast.Assign) and len(a.targets) == 1 and isinstance(a.targets[0], ast.Name):
+                t = a.targets[0].id
+                if t == token_name:
+                    v = a.value
+                    if isinstance(v, ast.Constant) and isinstance(v.value, str) and not guard_equal_const(a, v.value):
+                        tok = ('C', v.value)
+                    elif isinstance(v, ast.Constant):
+                        pass
+                    elif isinstance(v, ast.Subscript) and isinstance(v.slice, ast.Slice) and norm(v.slice.lower) == start_name \
+                            and v.slice.upper is not None and norm(v.slice.upper) == pos_name:
+                        tok, P = 'M', 'END'          # token is again exactly line[start:pos]
+                    else:
+                        tok = '?'
+                elif t == pos_name:
+                    v = a.value
+                    if isinstance(v, ast.BinOp) and isinstance(v.op, ast.Add) and norm(v.left) == start_name:
+                        k = ev(v.right, tok)
+                        P = ('K', k) if k is not None else '?'
+                    else:
+                        P = '?'
+                elif t == start_name:
+                    continue                            # another way of scanning: not this rule's business
+            elif isinstance(a, ast.Assign) and any(isinstance(x, ast.Name) and x.id in (pos_name, token_name, start_name)
+                                                   for t in a.targets for x in ast.walk(t)):
+                continue                                # re-matched (tuple assignment): a new step
+            elif isinstance(a, ast.AugAssign) and isinstance(a.target, ast.Name) and a.target.id == pos_name:
+                d = ev(a.value, tok)
+                if d is None:
+                    P = '?'
+                elif d != 0:
+                    if isinstance(P, tuple):
+                        P = ('K', P[1] + d if isinstance(a.op, ast.Add) else P[1] - d)
+                    else:
+                        P = '?'
+            e2 = emitted(a, tok)
+            if e2 is not None:
+                E = e2
+        for s2, lab in node.succ:
+            if lab == 'exc':
+                continue
+            nxt = (s2, tok, P, E)
+            if nxt not in seen:
+                seen[nxt] = state
+                todo.append(nxt)
+    from ..paths import path_text
+
+    def trail(state):
+        out = []
+        while state is not None:
+            out.append(state[0])
+            state = seen.get(state)
+        return path_text(list(reversed(out)), limit=7)
+    rep.stat('tok12_states', len(seen))
+    if not problems:
+        rep.ob('TOK-12', TOK, f.qual, 'emitted text and scan position agree at every return to the scan loop', True)
+    for (E, P), state in sorted(problems.items(), key=str):
+        rep.ob('TOK-12', TOK, f.qual, 'a text of %d character(s) is emitted and the scan continues at %s' % (
+            E[1], 'the end of the whole match' if P == 'END' else 'start + %d' % P[1]), False,
+            'the step emits %d character(s) of the match but the next step starts %s: the characters in between are in no '
+            'token and no prefix (or are scanned twice). Path: %s' % (E[1], 'behind the whole match' if P == 'END' else 'at start + %d' % P[1],
+                                                                   ' -> '.join(trail(state))), witness=trail(state))
